@@ -1,12 +1,16 @@
-// Suite intervals (C20, mechanism): tombstones.Intervals.Add on generated insertion sequences.
+// Suite intervals (C20, mechanism): tombstones.Intervals.Add, Interval.InBounds/IsSubrange and
+// tsdb.DeletedIterator on generated insertion sequences.
 package main
 
 import (
 	"fmt"
 	"math"
+	"sort"
 	"strconv"
 	"strings"
 
+	"github.com/prometheus/prometheus/tsdb"
+	"github.com/prometheus/prometheus/tsdb/chunkenc"
 	"github.com/prometheus/prometheus/tsdb/tombstones"
 
 	"verif/harness/h"
@@ -34,6 +38,71 @@ func apply(cur tombstones.Intervals, n tombstones.Interval) (tombstones.Interval
 	return res, render(res)
 }
 
+func i64list(xs []int64) string {
+	if len(xs) == 0 {
+		return "-"
+	}
+	parts := make([]string, len(xs))
+	for i, x := range xs {
+		parts[i] = strconv.FormatInt(x, 10)
+	}
+	return strings.Join(parts, ",")
+}
+
+func parseList(s string) []int64 {
+	if s == "-" {
+		return nil
+	}
+	var out []int64
+	for _, p := range strings.Split(s, ",") {
+		v, _ := strconv.ParseInt(p, 10, 64)
+		out = append(out, v)
+	}
+	return out
+}
+
+// runIter builds a real XOR chunk with one sample per timestamp, wraps its iterator into the real
+// tsdb.DeletedIterator with a private copy of the intervals, optionally Seeks, then drains with Next.
+func runIter(cur tombstones.Intervals, seek string, ts []int64) string {
+	chk := chunkenc.NewXORChunk()
+	app, err := chk.Appender()
+	if err != nil {
+		return "err-appender"
+	}
+	for _, t := range ts {
+		app.Append(0, t, float64(len(ts)))
+	}
+	// sanity: the chunk itself must give the timestamps back (otherwise it is not C20's business)
+	raw := chk.Iterator(nil)
+	for _, t := range ts {
+		if raw.Next() == chunkenc.ValNone || raw.AtT() != t {
+			return "err-chunk"
+		}
+	}
+	cp := make(tombstones.Intervals, len(cur))
+	copy(cp, cur)
+	it := &tsdb.DeletedIterator{Iter: chk.Iterator(nil), Intervals: cp}
+	var got []int64
+	out := ""
+	if p, _ := h.Try(func() {
+		if seek != "-" {
+			s, _ := strconv.ParseInt(seek, 10, 64)
+			if it.Seek(s) == chunkenc.ValNone {
+				return
+			}
+			got = append(got, it.AtT())
+		}
+		for it.Next() != chunkenc.ValNone {
+			got = append(got, it.AtT())
+		}
+	}); p {
+		out = "panic"
+	} else {
+		out = "ts " + i64list(got)
+	}
+	return out
+}
+
 var small = []int64{math.MinInt64, math.MinInt64 + 1, math.MinInt64 + 2, -3, -2, -1, 0, 1, 2, 3, 4, 5, 6, 7, 8, 9, 10, 11, 12, 20, 21, 22, 30, math.MaxInt64 - 2, math.MaxInt64 - 1, math.MaxInt64}
 
 func runCase(c *h.Ctx, ops []string) {
@@ -53,8 +122,42 @@ func runCase(c *h.Ctx, ops []string) {
 				c.Count("out:panic")
 			}
 			c.Op(op, out)
+		case "inb":
+			a, _ := strconv.ParseInt(f[1], 10, 64)
+			b, _ := strconv.ParseInt(f[2], 10, 64)
+			t, _ := strconv.ParseInt(f[3], 10, 64)
+			c.Op(op, strconv.FormatBool(tombstones.Interval{Mint: a, Maxt: b}.InBounds(t)))
+		case "sub":
+			a, _ := strconv.ParseInt(f[1], 10, 64)
+			b, _ := strconv.ParseInt(f[2], 10, 64)
+			r := tombstones.Interval{Mint: a, Maxt: b}.IsSubrange(cur)
+			c.Count("sub:" + strconv.FormatBool(r))
+			c.Op(op, strconv.FormatBool(r))
+		case "iter":
+			ts := parseList(f[2])
+			out := runIter(cur, f[1], ts)
+			if strings.HasPrefix(out, "err") || out == "panic" {
+				c.Count("iter:" + out)
+			} else if len(strings.Split(out, ",")) < len(ts) {
+				c.Count("iter:some-deleted")
+			}
+			c.Op(op, out)
+		default:
+			c.Op(op, "bad-op")
 		}
 	}
+}
+
+// sortedSet returns the distinct values of xs in increasing order.
+func sortedSet(xs []int64) []int64 {
+	sort.Slice(xs, func(i, j int) bool { return xs[i] < xs[j] })
+	var out []int64
+	for i, x := range xs {
+		if i == 0 || x != xs[i-1] {
+			out = append(out, x)
+		}
+	}
+	return out
 }
 
 func main() {
@@ -78,6 +181,7 @@ func main() {
 			}
 		}
 	}
+	exSamples := sortedSet([]int64{math.MinInt64, math.MinInt64 + 1, -2, -1, 0, 1, 2, 3, 4, math.MaxInt64 - 2, math.MaxInt64 - 1, math.MaxInt64})
 	depth := 2
 	if c.Tier == "thorough" {
 		depth = 3
@@ -89,6 +193,11 @@ func main() {
 			id++
 			c.Case(fmt.Sprintf("ex%d", id))
 			c.NonTrivial(strings.Join(prefix, ";"))
+			// queries against the final set: every sample of the domain (±1 neighbours), one seek, subranges
+			prefix = append(prefix, "iter - "+i64list(exSamples))
+			prefix = append(prefix, fmt.Sprintf("iter %d %s", dom[id%len(dom)], i64list(exSamples)))
+			iv := ivs[id%len(ivs)]
+			prefix = append(prefix, fmt.Sprintf("sub %d %d", iv[0], iv[1]))
 			runCase(c, prefix)
 			c.Count("stream:exhaustive")
 			return
@@ -115,6 +224,42 @@ func main() {
 				a, b = b, a
 			}
 			ops = append(ops, fmt.Sprintf("add %d %d", a, b))
+			// interleaved queries on the running set
+			if r.Chance(35) {
+				x, y := h.PickI64(r, small), h.PickI64(r, small)
+				if r.Chance(50) {
+					x = r.Range(-50, 50)
+					y = x + r.Range(0, 6)
+				}
+				if x > y && r.Chance(90) {
+					x, y = y, x
+				}
+				ops = append(ops, fmt.Sprintf("sub %d %d", x, y))
+			}
+			if r.Chance(10) {
+				ops = append(ops, fmt.Sprintf("inb %d %d %d", a, b, h.PickI64(r, []int64{a - 1, a, a + 1, b - 1, b, b + 1, h.PickI64(r, small)})))
+			}
+			if r.Chance(35) {
+				var ts []int64
+				for j, m := 0, r.Intn(14); j < m; j++ {
+					switch r.Intn(3) {
+					case 0:
+						ts = append(ts, h.PickI64(r, small))
+					case 1:
+						ts = append(ts, r.Range(-55, 65))
+					default:
+						ts = append(ts, h.PickI64(r, []int64{a - 1, a, a + 1, b - 1, b, b + 1}))
+					}
+				}
+				// a-1 / b+1 may wrap around at the extremes: that is still a valid int64 timestamp
+				ts = sortedSet(ts)
+				seek := "-"
+				if r.Chance(50) {
+					seek = strconv.FormatInt(h.PickI64(r, append([]int64{a, b, b + 1, r.Range(-55, 65)}, ts...)), 10)
+				}
+				ops = append(ops, fmt.Sprintf("iter %s %s", seek, i64list(ts)))
+				c.Count("op:iter")
+			}
 			if b == math.MaxInt64 {
 				c.Count("add:maxt=MaxInt64")
 			}
